@@ -1,8 +1,10 @@
 package schist
 
 import (
+	"encoding/json"
 	"fmt"
 	"math/big"
+	"sort"
 	"time"
 
 	"0chain.net/chaincore/transaction"
@@ -208,11 +210,11 @@ type destView struct {
 }
 
 type poolView struct {
-	Key                string
-	Owner              string
-	Balance            uint64
-	Start, Expire      int64
-	Dests              []destView
+	Key           string
+	Owner         string
+	Balance       uint64
+	Start, Expire int64
+	Dests         []destView
 }
 
 func (h *Hist) vestingPools(s map[string][]byte) map[string]*poolView {
@@ -235,6 +237,7 @@ func (h *Hist) vestingPools(s map[string][]byte) map[string]*poolView {
 }
 
 func monC16(h *Hist, o *TxnObs) {
+	vsModelC16(h, o) // independent model of every pool (inputs of `add`, observed transfers); the checks below read the contract's nodes
 	post := h.vestingPools(o.Post)
 	if len(post) == 0 && o.Txn.ToClientID != vestingsc.ADDRESS {
 		return
@@ -421,4 +424,494 @@ func short(k string) string {
 		return "…" + k[len(k)-12:]
 	}
 	return k
+}
+
+// ---- C16 reference model -------------------------------------------------------------------------------------------------
+//
+// Every pool is modelled from what an outside observer sees: the request of the successful `add` (destination ids and
+// amounts, start time, duration), the tokens the `add` moved into the contract wallet and every later transfer out of the
+// contract wallet in a successful call that names the pool. Nothing the contract records (Vested, Last, Move, pool
+// balance) is read. Judged per destination id (an id may be listed more than once in a pool; the bounds are then the sums
+// over its entries): received <= assigned, received <= sum floor(amount * elapsed / duration) at the latest time any applied
+// transaction asserted, and per pool: funded - paid out >= sum of the unvested remainders of the destinations still in it.
+
+type vsDest struct {
+	entries  []uint64 // amounts of the entries carrying this id
+	assigned uint64
+	received uint64
+	stopped  bool
+	zero     bool // an owner's call once paid this id nothing although the schedule had started and tokens were unvested
+}
+
+type vsPool struct {
+	id, owner     string
+	start, expire int64
+	funded, out   uint64
+	order         []string
+	dest          map[string]*vsDest
+	deleted       bool
+}
+
+type vsModel struct {
+	now   int64
+	pools map[string]*vsPool
+}
+
+type vsAddInput struct {
+	StartTime    json.Number `json:"start_time"`
+	Duration     json.Number `json:"duration"`
+	Destinations []struct {
+		ID     string      `json:"id"`
+		Amount json.Number `json:"amount"`
+	} `json:"destinations"`
+}
+
+type vsPoolInput struct {
+	PoolID      string `json:"pool_id"`
+	Destination string `json:"destination"`
+}
+
+// vsBound is the linear schedule: sum over the entries of floor(amount * elapsed / duration), elapsed clipped to [0, duration].
+func vsBound(p *vsPool, d *vsDest, now int64) uint64 {
+	dur := p.expire - p.start
+	el := now
+	if el > p.expire {
+		el = p.expire
+	}
+	el -= p.start
+	if el < 0 {
+		el = 0
+	}
+	if dur <= 0 || el >= dur {
+		return d.assigned
+	}
+	var sum uint64
+	for _, a := range d.entries {
+		v := new(big.Int).SetUint64(a)
+		v.Mul(v, big.NewInt(el))
+		v.Quo(v, big.NewInt(dur))
+		sum += v.Uint64()
+	}
+	return sum
+}
+
+func vsPhase(p *vsPool, t int64) string {
+	dur := p.expire - p.start
+	switch {
+	case t < p.start:
+		return "before-start"
+	case t > p.expire:
+		return "after-expiry"
+	case t == p.expire:
+		return "at-expiry"
+	case p.expire-t <= 5:
+		return "last-5s"
+	case (t-p.start)*10 < dur:
+		return "first-tenth"
+	}
+	return "mid"
+}
+
+func vsModelC16(h *Hist, o *TxnObs) {
+	m, _ := h.Vars["c16model"].(*vsModel)
+	if m == nil {
+		m = &vsModel{pools: map[string]*vsPool{}}
+		h.Vars["c16model"] = m
+	}
+	t := o.Txn
+	if o.Outcome == "rejected" || t == nil {
+		return
+	}
+	own := int64(t.CreationDate)
+	if own > m.now {
+		m.now = own
+	}
+	if t.TransactionType != transaction.TxnTypeSmartContract || t.ToClientID != vestingsc.ADDRESS || t.SmartContractData == nil {
+		return
+	}
+	fn := t.FunctionName
+	run := h.Runs["C16"]
+	if fn == "add" {
+		if o.Outcome != "success" {
+			return
+		}
+		var in vsAddInput
+		if err := json.Unmarshal(t.InputData, &in); err != nil {
+			h.C("C16", "model_add_request_not_understood")
+			return
+		}
+		p := &vsPool{id: vestingsc.ADDRESS + ":vestingpool:" + t.Hash, owner: t.ClientID, dest: map[string]*vsDest{}}
+		st, _ := in.StartTime.Int64()
+		if in.StartTime == "" || st == 0 {
+			st = own
+		}
+		du, err := in.Duration.Int64()
+		if err != nil {
+			h.C("C16", "model_add_request_not_understood")
+			return
+		}
+		p.start, p.expire = st, st+du/int64(time.Second)
+		for _, d := range in.Destinations {
+			a, err := parseU64(d.Amount)
+			if err != nil {
+				h.C("C16", "model_add_request_not_understood")
+				return
+			}
+			e := p.dest[d.ID]
+			if e == nil {
+				e = &vsDest{}
+				p.dest[d.ID] = e
+				p.order = append(p.order, d.ID)
+			}
+			e.entries = append(e.entries, a)
+			e.assigned += a
+		}
+		for _, tr := range o.Tr {
+			if tr.ToClientID == vestingsc.ADDRESS && tr.ClientID == t.ClientID {
+				p.funded += uint64(tr.Amount)
+			}
+		}
+		m.pools[p.id] = p
+		h.C("C16", "model_pools_created")
+		var owed uint64
+		for _, id := range p.order {
+			owed += p.dest[id].assigned
+		}
+		if p.funded < owed {
+			h.V("C16", "model:pool-holds-less-than-unvested-remainder", fmt.Sprintf("pool %s created with %d tokens for destinations that are assigned %d", short(p.id), p.funded, owed), o)
+		}
+		return
+	}
+	if fn != "trigger" && fn != "unlock" && fn != "stop" && fn != "delete" {
+		return
+	}
+	var in vsPoolInput
+	if err := json.Unmarshal(t.InputData, &in); err != nil {
+		return
+	}
+	p := m.pools[in.PoolID]
+	if p == nil || p.deleted {
+		return
+	}
+	sender := t.ClientID
+	unpaid := func() (n int) {
+		for _, id := range p.order {
+			if d := p.dest[id]; !d.stopped && d.received < d.assigned {
+				n++
+			}
+		}
+		return
+	}
+	if o.Outcome != "success" {
+		// "by expiry the destination can receive exactly its amount"
+		if own >= p.expire {
+			if d := p.dest[sender]; fn == "unlock" && sender != p.owner && d != nil && !d.stopped && len(d.entries) == 1 && d.received < d.assigned {
+				h.C("C16", "model_refused_unlock_at_expiry_judged")
+				h.V("C16", "model:destination-cannot-receive-amount-at-expiry", fmt.Sprintf("pool %s: unlock of destination %s at/after expiry failed (%s) with %d of %d received", short(p.id), h.name(sender), trunc(t.TransactionOutput, 120), d.received, d.assigned), o)
+			}
+			if fn == "trigger" && sender == p.owner && unpaid() > 0 {
+				h.C("C16", "model_refused_trigger_at_expiry_judged")
+				h.V("C16", "model:trigger-cannot-pay-amounts-at-expiry", fmt.Sprintf("pool %s: owner's trigger at/after expiry failed (%s) with %d destinations not fully paid", short(p.id), trunc(t.TransactionOutput, 120), unpaid()), o)
+			}
+		}
+		return
+	}
+	got := map[string]uint64{}
+	for _, tr := range o.Tr {
+		if tr.ClientID == vestingsc.ADDRESS {
+			p.out += uint64(tr.Amount)
+			got[tr.ToClientID] += uint64(tr.Amount)
+		}
+	}
+	credit := func(id string) {
+		d := p.dest[id]
+		if d == nil || d.stopped || got[id] == 0 {
+			return
+		}
+		d.received += got[id]
+		if d.zero {
+			h.C("C16", "model_paid_after_zero_yield")
+			if own < p.expire {
+				h.C("C16", "model_paid_after_zero_yield_before_expiry")
+			}
+			if p.expire-own <= 5 {
+				h.C("C16", "model_paid_after_zero_yield_last_5s_or_later")
+			}
+		}
+	}
+	zeroSeen := false
+	switch fn {
+	case "trigger":
+		for _, id := range p.order {
+			credit(id)
+			if d := p.dest[id]; !d.stopped && got[id] == 0 && d.received < d.assigned && own > p.start && own < p.expire {
+				if !d.zero {
+					h.C("C16", "model_zero_yield_by_trigger")
+				}
+				d.zero = true
+			}
+		}
+	case "unlock":
+		if sender != p.owner {
+			credit(sender)
+		}
+	case "stop":
+		credit(in.Destination)
+	case "delete":
+		for _, id := range p.order {
+			if id != p.owner {
+				credit(id)
+			}
+		}
+	}
+	for _, id := range p.order {
+		d := p.dest[id]
+		if d.zero {
+			zeroSeen = true
+		}
+		if d.stopped {
+			continue
+		}
+		h.C("C16", "model_destination_bounds_checked")
+		if run != nil {
+			run.Eval(1)
+		}
+		if d.received > d.assigned {
+			h.V("C16", "model:received-exceeds-assigned-amount", fmt.Sprintf("pool %s destination %s received %d, assigned %d (after %s at %d, pool %d..%d)", short(p.id), h.name(id), d.received, d.assigned, fn, own, p.start, p.expire), o)
+		} else if b := vsBound(p, d, m.now); d.received > b {
+			h.V("C16", "model:received-ahead-of-linear-schedule", fmt.Sprintf("pool %s destination %s received %d of %d by %d (pool %d..%d): linear schedule allows %d (after %s)", short(p.id), h.name(id), d.received, d.assigned, m.now, p.start, p.expire, b, fn), o)
+		}
+	}
+	if fn == "stop" {
+		if d := p.dest[in.Destination]; d != nil {
+			d.stopped = true
+		}
+	}
+	if fn == "delete" {
+		p.deleted = true
+	}
+	if p.out > p.funded {
+		h.V("C16", "model:pool-paid-out-more-than-funded", fmt.Sprintf("pool %s funded with %d paid out %d", short(p.id), p.funded, p.out), o)
+	} else if !p.deleted {
+		var owed uint64
+		for _, id := range p.order {
+			if d := p.dest[id]; !d.stopped && d.received < d.assigned {
+				owed += d.assigned - d.received
+			}
+		}
+		h.C("C16", "model_pool_solvency_checked")
+		if p.funded-p.out < owed {
+			h.V("C16", "model:pool-holds-less-than-unvested-remainder", fmt.Sprintf("pool %s holds %d (funded %d, paid out %d) but its destinations are still owed %d (after %s)", short(p.id), p.funded-p.out, p.funded, p.out, owed, fn), o)
+		}
+	}
+	// success at/after expiry: everybody served by the call has exactly its amount
+	if own >= p.expire && !p.deleted {
+		switch {
+		case fn == "trigger":
+			h.C("C16", "model_trigger_at_expiry_judged")
+			if n := unpaid(); n > 0 {
+				h.V("C16", "model:not-fully-received-at-expiry", fmt.Sprintf("pool %s: trigger at/after expiry left %d destinations short of their amount", short(p.id), n), o)
+			}
+		case fn == "unlock" && sender != p.owner:
+			if d := p.dest[sender]; d != nil && !d.stopped && len(d.entries) == 1 {
+				h.C("C16", "model_unlock_at_expiry_judged")
+				if d.received != d.assigned {
+					h.V("C16", "model:not-fully-received-at-expiry", fmt.Sprintf("pool %s: destination %s unlocked at/after expiry and has %d of %d", short(p.id), h.name(sender), d.received, d.assigned), o)
+				}
+			}
+		}
+	}
+	if run != nil {
+		run.Distinct(fmt.Sprintf("model|%s|%s|dests=%d|zero=%v|paid=%d", fn, vsPhase(p, own), len(p.order), zeroSeen, len(got)))
+	}
+}
+
+func parseU64(n json.Number) (uint64, error) {
+	var v uint64
+	_, err := fmt.Sscanf(n.String(), "%d", &v)
+	return v, err
+}
+
+// ---- directed scenario ---------------------------------------------------------------------------------------------------
+
+func init() {
+	RegisterScenario(Scenario{Prop: "C16", Name: "unequal-destinations", Fn: vsScenarioC16})
+}
+
+// vsScenarioC16: pools whose destinations are assigned very unequal amounts (a handful of units next to 1e10..1e13), short
+// durations, and many trigger / unlock / stop calls: first every few seconds (the small share rounds to zero tokens),
+// then at larger steps, then right before, at and after the expiry of every pool.
+func vsScenarioC16(h *Hist, mons []Monitor) {
+	r := h.R.Fork("c16-unequal")
+	sc := vestingsc.ADDRESS
+	T := transaction.TxnTypeSmartContract
+	type sp struct {
+		id            string
+		owner         *world.Wallet
+		dests         []*world.Wallet
+		start, expire int64
+		gone          bool
+	}
+	var pools []*sp
+	submit := func(c *Call) *TxnObs {
+		o := h.Submit(c, mons)
+		h.C("C16", "scenario_txns")
+		if h.TxInBlk >= 1+r.Intn(4) {
+			h.EndBlock()
+		}
+		return o
+	}
+	goTo := func(t int64) {
+		if t > int64(h.W.Now) {
+			h.EndBlock()
+			h.W.Advance(time.Duration(t-int64(h.W.Now)) * time.Second)
+		}
+	}
+	np := 2 + r.Intn(2)
+	for i := 0; i < np; i++ {
+		perm := make([]int, len(h.W.Clients))
+		for k := range perm {
+			perm[k] = k
+		}
+		r.Shuffle(len(perm), func(a, b int) { perm[a], perm[b] = perm[b], perm[a] })
+		owner := h.W.Clients[perm[0]]
+		nd := 2 + r.Intn(2)
+		tiny := uint64(1 + r.Intn(12))
+		if r.Chance(0.3) {
+			tiny = 10
+		}
+		big := []uint64{1e12, 1e10, 1e13, 300000000007, 1e12 + 1}[r.Intn(5)]
+		amounts := []uint64{tiny, big, []uint64{uint64(1 + r.Intn(40)), uint64(1000 + r.Intn(1e6)), 3}[r.Intn(3)]}[:nd]
+		r.Shuffle(len(amounts), func(a, b int) { amounts[a], amounts[b] = amounts[b], amounts[a] })
+		var dests []map[string]interface{}
+		var dw []*world.Wallet
+		var total uint64
+		for k := 0; k < nd; k++ {
+			d := h.W.Clients[perm[1+k]]
+			dw = append(dw, d)
+			dests = append(dests, map[string]interface{}{"id": d.ID, "amount": amounts[k]})
+			total += amounts[k]
+		}
+		dur := []int64{120, 150, 180, 240, 300, 600, 1000}[r.Intn(7)]
+		start := int64(0)
+		if r.Chance(0.3) {
+			start = int64(h.W.Now) + int64(1+r.Intn(20))
+		}
+		val := total + []uint64{0, 0, 1, uint64(r.Intn(1000))}[r.Intn(4)]
+		in := map[string]interface{}{"description": "s", "start_time": start, "duration": dur * int64(time.Second), "destinations": dests}
+		o := submit(&Call{Name: "vesting.add", Mut: "scenario", Spec: world.TxnSpec{From: owner, To: sc, Value: Coin(val), Fee: Coin(r.Intn(500)), Type: T, Func: "add", Input: in}})
+		if o.Outcome != "success" {
+			h.C("C16", "scenario_add_refused")
+			continue
+		}
+		if start == 0 {
+			start = int64(o.Txn.CreationDate)
+		}
+		p := &sp{id: sc + ":vestingpool:" + o.Txn.Hash, owner: owner, dests: dw, start: start, expire: start + dur}
+		pools = append(pools, p)
+		h.S.Vs.Pools = append(h.S.Vs.Pools, &vpShadow{ID: p.id, Owner: owner, Dests: dw})
+		if r.Chance(0.5) {
+			goTo(int64(h.W.Now) + int64(1+r.Intn(5)))
+		}
+	}
+	if len(pools) == 0 {
+		return
+	}
+	h.C("C16", "scenario_runs")
+	call := func(p *sp, fn string, from *world.Wallet, in map[string]string) *TxnObs {
+		return submit(&Call{Name: "vesting." + fn, Mut: "scenario", Meta: map[string]interface{}{"pool": p.id}, Spec: world.TxnSpec{From: from, To: sc, Fee: Coin(r.Intn(500)), Type: T, Func: fn, Input: in}})
+	}
+	act := func(p *sp, late bool) {
+		if p.gone {
+			return
+		}
+		pid := map[string]string{"pool_id": p.id}
+		switch k := r.Intn(20); {
+		case k < 8:
+			call(p, "trigger", p.owner, pid)
+		case k < 16:
+			call(p, "unlock", p.dests[r.Intn(len(p.dests))], pid)
+		case k < 18:
+			call(p, "unlock", p.owner, pid)
+		case k < 19 && late && len(p.dests) > 1:
+			i := r.Intn(len(p.dests))
+			if o := call(p, "stop", p.owner, map[string]string{"pool_id": p.id, "destination": p.dests[i].ID}); o.Outcome == "success" {
+				p.dests = append(append([]*world.Wallet{}, p.dests[:i]...), p.dests[i+1:]...)
+			}
+		default:
+			call(p, "trigger", p.owner, pid)
+		}
+	}
+	// moments every pool must be visited at: shortly before, at and after its expiry
+	type ev struct {
+		t int64
+		p *sp
+	}
+	var evs []ev
+	for _, p := range pools {
+		evs = append(evs, ev{p.expire - int64(1+r.Intn(5)), p}, ev{p.expire, p}, ev{p.expire + int64(1+r.Intn(20)), p})
+	}
+	sort.SliceStable(evs, func(i, j int) bool { return evs[i].t < evs[j].t })
+	visit := func(e ev) {
+		goTo(e.t)
+		p := e.p
+		if p.gone {
+			return
+		}
+		pid := map[string]string{"pool_id": p.id}
+		if r.Chance(0.5) {
+			call(p, "trigger", p.owner, pid)
+		}
+		for _, d := range p.dests {
+			if r.Chance(0.7) {
+				call(p, "unlock", d, pid)
+			}
+		}
+		if int64(h.W.Now) >= p.expire {
+			if r.Chance(0.6) {
+				call(p, "trigger", p.owner, pid)
+			}
+			if r.Chance(0.4) {
+				call(p, "unlock", p.owner, pid)
+			}
+			if int64(h.W.Now) > p.expire && r.Chance(0.6) {
+				if o := call(p, "delete", p.owner, pid); o.Outcome == "success" {
+					p.gone = true
+					for i, q := range h.S.Vs.Pools {
+						if q.ID == p.id {
+							h.S.Vs.Pools = append(h.S.Vs.Pools[:i], h.S.Vs.Pools[i+1:]...)
+							break
+						}
+					}
+				}
+			}
+		}
+	}
+	steps := 30 + r.Intn(12)
+	for i := 0; i < steps; i++ {
+		now := int64(h.W.Now)
+		p := pools[r.Intn(len(pools))]
+		var want int64
+		switch k := r.Intn(20); {
+		case i < 10 || k < 9:
+			want = now + int64(1+r.Intn(9))
+		case k < 10:
+			want = now
+		case k < 16:
+			d := p.expire - p.start
+			want = now + d/10 + int64(r.Intn(int(d/6)+1))
+		default:
+			want = now + int64(10+r.Intn(50))
+		}
+		for len(evs) > 0 && evs[0].t <= want {
+			visit(evs[0])
+			evs = evs[1:]
+		}
+		goTo(want)
+		act(p, i > steps/2)
+	}
+	for _, e := range evs {
+		visit(e)
+	}
+	h.EndBlock()
 }
